@@ -48,6 +48,7 @@ type ARec struct {
 	Raw   rawStr `json:"raw,omitempty"`   // hostile material sent verbatim instead of a record (C07)
 	TS    int    `json:"ts,omitempty"`    // timestamp variant
 	Esc   bool   `json:"esc,omitempty"`   // the message carries backslash escapes for the configured unescape step
+	MK    int    `json:"mk,omitempty"`    // >0: host / msgid pair chosen so that different (host, source) metric key sets have the same concatenation
 }
 
 // ABurst is a group of records written with one client write, preceded by a pause
@@ -81,9 +82,10 @@ type AEvent struct {
 // AScenario is one world-A run
 type AScenario struct {
 	Profile       string     `json:"profile"`
-	Keys          []string   `json:"keys"`       // orchestration key fields
-	Tag           string     `json:"tag"`        // tag template
-	KeyTuples     [][]string `json:"key_tuples"` // values of (app, level-severity, pid) per tuple index; level is a severity number as string
+	Keys          []string   `json:"keys"`                  // orchestration key fields
+	MetricKeys    []string   `json:"metric_keys,omitempty"` // metricKeys of the configuration (default: host)
+	Tag           string     `json:"tag"`                   // tag template
+	KeyTuples     [][]string `json:"key_tuples"`            // values of (app, level-severity, pid) per tuple index; level is a severity number as string
 	Mode          string     `json:"mode"`
 	MaxDurMs      int        `json:"max_duration_ms"`
 	FlushMs       int        `json:"flush_ms"`
@@ -162,10 +164,8 @@ func (s *AScenario) configYAML(variant string) string {
 	}
 	maxDur := fmt.Sprintf("%dms", s.MaxDurMs)
 	metricKey := "host"
-	for _, k := range s.Keys {
-		if k == "host" {
-			metricKey = "source"
-		}
+	if len(s.MetricKeys) > 0 {
+		metricKey = strings.Join(s.MetricKeys, ", ")
 	}
 	return fmt.Sprintf(`schema:
   fields: [%s]
@@ -244,6 +244,9 @@ func (s *AScenario) recordLine(client, seq int, rec ARec) string {
 	}
 	ts := tsv[rec.TS%len(tsv)]
 	host := []string{"h1", "h2"}[(client+seq)%2]
+	if rec.MK > 0 && !rec.Drop {
+		host, msgid = mkHostSource(rec.MK)
+	}
 	msg := fmt.Sprintf("c%d.n%d#", client, seq) // self-delimiting: a truncated stamp never equals another stamp
 	if rec.Fill > 0 {
 		msg += " " + strings.Repeat(string(rune('a'+seq%26)), rec.Fill)
@@ -256,6 +259,12 @@ func (s *AScenario) recordLine(client, seq int, rec ARec) string {
 		line += fmt.Sprintf("\tcontinuation %d of c%d.n%d\n", i, client, seq)
 	}
 	return line
+}
+
+// mkHostSource gives (host, msgid) pairs whose plain concatenations coincide: h+1s, h1+s, h1s+x ...
+func mkHostSource(mk int) (string, string) {
+	p := [][2]string{{"h", "1s"}, {"h1", "s"}, {"h2", "s"}, {"h", "2s"}}[(mk-1)%4]
+	return p[0], p[1]
 }
 
 func genFaultyUp(r *simrt.Rand, s *AScenario) AUp {
@@ -575,6 +584,18 @@ func (w *worldA) tweak(r *simrt.Rand, s *AScenario, end int) {
 		}
 	case "c19":
 		// the equations are asserted on runs without reachable limits
+		if r.Bool(50) {
+			s.MetricKeys = []string{"host", "source"}
+			for ci := range s.Clients {
+				for bi := range s.Clients[ci].Bursts {
+					for ri := range s.Clients[ci].Bursts[bi].Recs {
+						if r.Bool(40) {
+							s.Clients[ci].Bursts[bi].Recs[ri].MK = 1 + r.Intn(4)
+						}
+					}
+				}
+			}
+		}
 	}
 }
 
@@ -710,6 +731,7 @@ type aRun struct {
 	notes                []string
 	stopping             bool
 	stopHung             bool
+	metricsErr           string        // first failure to gather the agent's metrics
 	stopSince            time.Duration // simulated time+1 at which a stop in progress was requested; 0 when none
 	finalDeadlineHit     bool
 	lastFaultAt          time.Duration
@@ -885,7 +907,16 @@ func (r *aRun) stopAgent() {
 	took := simrt.Now() - t0
 	r.stopSince = 0
 	st := aStop{Gen: a.gen, At: t0, Took: took, BugLines: strings.Count(r.logbuf.String(), "BUG:") - bug0}
-	dump := promext.DumpMetricsFrom("", true, false, r.currentLoader().GetMetricQuerier())
+	dump := ""
+	func() {
+		// gathering fails (panics in this helper, HTTP 500 on the real endpoint) when two metrics collide or a label is invalid
+		defer func() {
+			if e := recover(); e != nil {
+				r.metricsErr = clip(fmt.Sprint(e), 1500)
+			}
+		}()
+		dump = promext.DumpMetricsFrom("", true, false, r.currentLoader().GetMetricQuerier())
+	}()
 	if os.Getenv("VERIF_DUMP_METRICS") != "" {
 		fmt.Fprintln(os.Stderr, dump)
 	}
